@@ -107,12 +107,15 @@ def searchLoop (f : Nat → Option Bool) (i j : Nat) : Option Nat :=
 termination_by j - i
 decreasing_by all_goals omega
 
+/-- `List.Lookup`: `if i == 0 { return }` -/
+abbrev lookupNone (i : Nat) : Prop := i = 0
+
 /-- `List.Lookup`. Outer `none` = panic, inner `none` = not found. -/
 def lookup {V} (l : List (Range V)) (ip : Ipv6) : Option (Option V) :=
   match searchLoop (fun i => (l[i]?).map fun r => decide (ip.cmp r.start < 0)) 0 l.length with
   | none => none
   | some i =>
-    if i = 0 then some none
+    if lookupNone i then some none
     else match l[i - 1]? with
       | none => none
       | some r => some (r.contains ip)
